@@ -7,6 +7,7 @@ package main
 import (
 	"fmt"
 	"go/types"
+	"math"
 	"reflect"
 	"strings"
 	"unicode"
@@ -310,6 +311,30 @@ func registerIntrinsics(P *Program) {
 		m.assume(m.st.Ult(r, m.st.Const(32, 0x80)))
 		return m.st.BAnd(m.st.Ule(m.st.Const(32, 'A'), r), m.st.Ule(r, m.st.Const(32, 'Z')))
 	}
+	// assembly leaves of package math (no Go body on amd64): computed on
+	// constants; a symbolic argument is sampled (see sampleFloat)
+	mathLeaf := func(f func(float64) float64) func(m *Machine, fn *ssa.Function, args []Value) Value {
+		return func(m *Machine, fn *ssa.Function, args []Value) Value {
+			x := m.sampleFloat(args[0].(*Term), "argument of "+fn.Name())
+			return m.st.Const(64, math.Float64bits(f(math.Float64frombits(x.K))))
+		}
+	}
+	I["math.archFloor"] = mathLeaf(math.Floor)
+	I["math.archCeil"] = mathLeaf(math.Ceil)
+	I["math.archTrunc"] = mathLeaf(math.Trunc)
+	I["math.archSqrt"] = mathLeaf(math.Sqrt)
+	I["math.archExp"] = mathLeaf(math.Exp)
+	I["math.archLog"] = mathLeaf(math.Log)
+	mathLeaf2 := func(f func(a, b float64) float64) func(m *Machine, fn *ssa.Function, args []Value) Value {
+		return func(m *Machine, fn *ssa.Function, args []Value) Value {
+			x := m.sampleFloat(args[0].(*Term), "argument of "+fn.Name())
+			y := m.sampleFloat(args[1].(*Term), "argument of "+fn.Name())
+			return m.st.Const(64, math.Float64bits(f(math.Float64frombits(x.K), math.Float64frombits(y.K))))
+		}
+	}
+	I["math.archMax"] = mathLeaf2(math.Max)
+	I["math.archMin"] = mathLeaf2(math.Min)
+	I["math.archHypot"] = mathLeaf2(math.Hypot)
 	I["math/bits.Len64"] = func(m *Machine, fn *ssa.Function, args []Value) Value {
 		x := args[0].(*Term)
 		res := m.st.Const(64, 0)
